@@ -11,5 +11,8 @@ INVARIANT Inv_Reply
 INVARIANT Inv_Honest
 INVARIANT Inv_FinalTxValidExact
 INVARIANT Inv_TamperRefused
+INVARIANT Inv_Reserved
+INVARIANT Inv_Retry
+INVARIANT Inv_RetrySucceeds
 INVARIANT EmitCase
 CHECK_DEADLOCK FALSE
